@@ -789,6 +789,197 @@ where
 }
 
 // ---------------------------------------------------------------------------------------------
+// family retriever_history: explicit-state search over short call histories on ONE GLWEBlindRetriever
+// ---------------------------------------------------------------------------------------------
+// The retriever is documented as reusable ("retrieve combines reset, all add calls, and flush"): whatever was fed to it
+// before, a call must answer from its own inputs only. State = the retriever object after a prefix of calls; action =
+// one call (entry point retrieve | add x len then flush, array length 1..=capacity, index 0..len); every history of
+// the depth bound is executed on a fresh retriever and every call's result is decrypted and compared with the element
+// of THAT call's array (the arrays of the calls of a history are pairwise distinct, so a stale result is visible).
+
+#[derive(Clone, Copy, Debug, PartialEq, Eq, Serialize, Deserialize)]
+pub struct RCall {
+    /// false: retrieve(data[..len]); true: add(data[0]) .. add(data[len-1]) then flush
+    pub add_flush: bool,
+    pub len: usize,
+    pub idx: usize,
+}
+
+#[derive(Clone, Debug, Serialize, Deserialize)]
+pub struct HistCase {
+    pub backend: String,
+    pub p: Params,
+    /// size given to GLWEBlindRetriever::alloc
+    pub capacity: usize,
+    /// number of calls of a history
+    pub depth: usize,
+    pub first: RCall,
+}
+
+pub fn all_rcalls(capacity: usize) -> Vec<RCall> {
+    let mut v = vec![];
+    for len in 1..=capacity {
+        for idx in 0..len {
+            for add_flush in [false, true] {
+                v.push(RCall { add_flush, len, idx });
+            }
+        }
+    }
+    v
+}
+
+/// first calls of the large capacities: lengths around the powers of two and the capacity, first and last index
+pub fn structured_rcalls(capacity: usize) -> Vec<RCall> {
+    let mut lens: Vec<usize> = vec![1, 2, 3, 4, 5, 7, 8, 9, 15, 16, 17, capacity - 1, capacity];
+    lens.retain(|l| *l >= 1 && *l <= capacity);
+    lens.sort();
+    lens.dedup();
+    let mut v = vec![];
+    for len in lens {
+        for idx in [0, len - 1] {
+            for add_flush in [false, true] {
+                let c = RCall { add_flush, len, idx };
+                if !v.contains(&c) {
+                    v.push(c);
+                }
+            }
+        }
+    }
+    v
+}
+
+fn hist_datum(call: usize, i: usize) -> u32 {
+    0x9E37_79B9u32.wrapping_mul((i + 1 + 64 * call) as u32) ^ 0x8000_0001 ^ ((call as u32 + 1) << 20)
+}
+
+pub fn exec_hist<B: Bk>(ctx: &Ctx<B>, c: &HistCase, only: Option<Vec<RCall>>, seed: u64, rec: &mut Rec)
+where
+    Module<B>: HalAll<B> + CoreAll<B> + UintAll<B>,
+    Scratch<B>: ScratchTakeCore<B>,
+    ScratchOwned<B>: ScratchOwnedAlloc<B> + ScratchOwnedBorrow<B>,
+{
+    let h = fnv(format!("{c:?}").as_bytes());
+    let gf = (h & 1) as usize;
+    rec.distinct(h);
+    rec.sample(|| serde_json::to_value(c).unwrap());
+    let cap = c.capacity;
+    let bits: usize = if cap <= 1 { 1 } else { (usize::BITS - (cap - 1).leading_zeros()) as usize };
+    let field: u32 = ((1u64 << bits) - 1) as u32;
+    // one selector per index (all bits outside the index field set) and one distinct array per call position
+    let built = guarded(|| {
+        let sels: Vec<Prep<B, u32>> =
+            (0..cap).map(|idx| encrypt_prepared::<B, u32>(ctx, idx as u32 | !field, ctx.p.k_ggsw, ctx.p.ggsw_dnum, seed ^ h ^ (idx as u64 + 1))).collect();
+        let data: Vec<Vec<FheUint<Vec<u8>, u32>>> = (0..c.depth)
+            .map(|call| (0..cap).map(|i| encrypt_word::<B, u32>(ctx, hist_datum(call, i), seed ^ h ^ ((call * 64 + i) as u64 + 100))).collect())
+            .collect();
+        (sels, data)
+    });
+    let (sels, data) = match built {
+        Ok(x) => x,
+        Err(e) => return rec.fail(desc("retriever_history", B::NAME, "panic", c, json!({"stage": "inputs"}), json!({"panic": e}))),
+    };
+    let infos = ctx.p.glwe_infos();
+    let mut s = arena::<B>(ctx, gf);
+    // histories: the first call is the case's, the following ones range over every call
+    let rest = all_rcalls(cap);
+    let mut histories: Vec<Vec<RCall>> = vec![vec![c.first]];
+    for _ in 1..c.depth {
+        histories = histories.into_iter().flat_map(|hs| rest.iter().map(move |r| [hs.clone(), vec![*r]].concat())).collect();
+    }
+    if let Some(o) = &only {
+        histories.retain(|hs| hs == o);
+    }
+    let mut reported = 0usize;
+    for hs in &histories {
+        let run_history = |s: &mut ScratchOwned<B>, rec: &mut Rec| -> Result<(), (usize, &'static str, Value)> {
+            let mut r = guarded(|| GLWEBlindRetriever::alloc(&infos, cap)).map_err(|e| (0usize, "panic", json!({"panic": e, "stage": "alloc"})))?;
+            for (ci, call) in hs.iter().enumerate() {
+                let mut res = alloc_word::<B, u32>(ctx, (ci + gf) & 1);
+                let sel = &sels[call.idx];
+                let arr = &data[ci][..call.len];
+                let out = guarded(|| {
+                    if call.add_flush {
+                        for ct in arr {
+                            r.add(&ctx.module, ct, sel, 0, B::borrow(s));
+                        }
+                        r.flush(&ctx.module, &mut res, sel, 0, B::borrow(s));
+                    } else {
+                        r.retrieve(&ctx.module, &mut res, arr, sel, 0, B::borrow(s));
+                    }
+                });
+                rec.evals(1);
+                out.map_err(|e| (ci, "panic", json!({"panic": e})))?;
+                let rd = read_ct(ctx, &res, 32);
+                NOISE_PACKED.update(rd.max_rel);
+                rec.outcome(rd.value);
+                if let Some((kind, mut extra)) = judge_word(&rd, hist_datum(ci, call.idx) as u64) {
+                    // a result that belongs to an earlier call of the history is the signature of retained state
+                    let stale = (0..ci).any(|pc| (0..cap).any(|i| hist_datum(pc, i) as u64 == rd.value));
+                    extra["equals_an_element_of_an_earlier_call"] = json!(stale);
+                    return Err((ci, kind, extra));
+                }
+            }
+            Ok(())
+        };
+        if let Err((ci, kind, mut extra)) = run_history(&mut s, rec) {
+            reported += 1;
+            if reported <= 8 {
+                extra["first_call_of_history_is_wrong"] = json!(ci == 0);
+                extra["capacity_is_power_of_two"] = json!(cap.is_power_of_two());
+                rec.fail(desc("glwe_blind_retriever", B::NAME, kind, c, json!({"history": hs, "call_index": ci}), extra));
+            } else {
+                rec.add("further_failing_histories_not_listed", 1);
+            }
+        }
+        rec.add("histories", 1);
+    }
+}
+
+pub fn fam_retriever_history<B: Bk>(run: &mut Run, pool: &Pool<B>, ps: &[Params])
+where
+    Module<B>: HalAll<B> + CoreAll<B> + UintAll<B>,
+    Scratch<B>: ScratchTakeCore<B>,
+    ScratchOwned<B>: ScratchOwnedAlloc<B> + ScratchOwnedBorrow<B>,
+{
+    let seed = run.seed;
+    let thorough = is_dense(run);
+    let mut cases = vec![];
+    for (pi, p) in ps.iter().enumerate() {
+        // quick: the primary parameter set only
+        if !thorough && pi > 0 {
+            continue;
+        }
+        // exhaustive: every history of `depth` calls; the large capacities start from a structured set of first calls
+        let plan: Vec<(usize, usize, bool)> = if thorough {
+            vec![(1, 3, true), (2, 3, true), (3, 3, true), (4, 3, true), (5, 3, true), (6, 2, true), (7, 2, true), (8, 2, true), (9, 2, true), (16, 2, false), (25, 2, false)]
+        } else {
+            vec![(1, 3, true), (2, 3, true), (3, 3, true), (4, 3, true), (5, 2, true), (8, 2, true)]
+        };
+        for (capacity, depth, exhaustive_first) in plan {
+            if pi > 0 && (capacity > 8 || depth > 2) {
+                continue;
+            }
+            let firsts = if exhaustive_first { all_rcalls(capacity) } else { structured_rcalls(capacity) };
+            for first in firsts {
+                cases.push(HistCase {
+                    backend: B::NAME.into(),
+                    p: *p,
+                    capacity,
+                    depth,
+                    first,
+                });
+            }
+        }
+    }
+    run.family(
+        &format!("retriever_history/{}", B::NAME),
+        "explicit-state search over call histories on ONE GLWEBlindRetriever: capacities 1,2,3,4,5,8 (thorough 1..9, 16, 25), histories of 2 calls (3 calls for capacities <= 4; thorough <= 5), each call = (retrieve | add x len then flush, array length 1..=capacity, index 0..len); outer = (capacity, first call) - every first call for the small capacities, a structured set (lengths around the powers of two and the capacity, first / last index) for 16 and 25; inner = EVERY continuation; each history runs on a fresh retriever, the calls of a history use pairwise distinct arrays, and every call's result is read at every coefficient and must be the element of that call's array",
+        cases,
+        |c, rec| exec_hist::<B>(pool.get(&c.p), c, None, seed, rec),
+    );
+}
+
+// ---------------------------------------------------------------------------------------------
 // family rotation: glwe_blind_rotation(_assign), scalar_to_ggsw_blind_rotation, ggsw_blind_rotation(_assign)
 // ---------------------------------------------------------------------------------------------
 
@@ -1569,6 +1760,10 @@ where
         let c: SelCase = serde_json::from_value(case).unwrap();
         let idx = inner.get("idx").and_then(|x| x.as_u64()).map(|x| x as usize);
         run.single(fam, "replay", |rec| exec_select::<B>(ctx, &c, idx, seed, rec));
+    } else if fam.starts_with("retriever_history/") {
+        let c: HistCase = serde_json::from_value(case).unwrap();
+        let only: Option<Vec<RCall>> = inner.get("history").and_then(|h| serde_json::from_value(h.clone()).ok());
+        run.single(fam, "replay", |rec| exec_hist::<B>(ctx, &c, only, seed, rec));
     } else if fam.starts_with("blind_rotation/") {
         let c: RotCase = serde_json::from_value(case).unwrap();
         let only = match (inner.get("sign"), inner.get("bit_rsh"), inner.get("bit_mask"), inner.get("bit_lsh")) {
